@@ -16,6 +16,7 @@ import (
 
 	"github.com/ARM-software/golang-utils/utils/collection/pagination"
 
+	"sync/atomic"
 	"verifharness/internal/hk"
 )
 
@@ -51,13 +52,24 @@ func (i *iter) GetNext() (interface{}, error) {
 
 // page implements IStaticPage, IPage, IStaticPageStream and IStream.
 type page struct {
-	items      []int
-	next       *page // reached by a "next" link
-	future     *page // reached by a "future" link
-	open       bool  // open-ended: claims a future for ever, the future is an empty open page
-	failLink   bool  // obtaining the linked page fails
-	iterFails  bool  // GetItemIterator fails (the other way a page can be unobtainable)
-	fetchCount *int
+	items           []int
+	next            *page // reached by a "next" link
+	future          *page // reached by a "future" link
+	open            bool  // open-ended: claims a future for ever, the future is an empty open page
+	failLink        bool  // obtaining the linked page fails
+	iterFails       bool  // GetItemIterator fails (the other way a page can be unobtainable)
+	fetchCount      *int
+	haltWhenFetched *func() // scenario: the paginator is halted while this page is being fetched (nil = never)
+}
+
+// delivered is called by the fetch paths right before the page is handed to the paginator.
+func (p *page) delivered() *page {
+	if p != nil && p.haltWhenFetched != nil && *p.haltWhenFetched != nil {
+		h := *p.haltWhenFetched
+		*p.haltWhenFetched = nil
+		h()
+	}
+	return p
 }
 
 func (p *page) HasNext() bool   { return p.next != nil }
@@ -76,7 +88,7 @@ func (p *page) nextPage() (*page, error) {
 	if p.failLink {
 		return nil, errScripted
 	}
-	return p.next, nil
+	return p.next.delivered(), nil
 }
 func (p *page) futurePage() (*page, error) {
 	if p.open {
@@ -88,7 +100,7 @@ func (p *page) futurePage() (*page, error) {
 	if p.failLink {
 		return nil, errScripted
 	}
-	return p.future, nil
+	return p.future.delivered(), nil
 }
 func (p *page) GetNext(ctx context.Context) (pagination.IPage, error) {
 	n, err := p.nextPage()
@@ -113,6 +125,8 @@ type Scenario struct {
 	FailAt int      `json:"failAt"`
 	Stream bool     `json:"stream"`
 	Calls  []Call   `json:"calls"`
+	// the paginator is halted while page number HaltFetch is being fetched (0 = never)
+	HaltFetch int `json:"haltFetch"`
 }
 
 type Call struct {
@@ -126,7 +140,7 @@ type Call struct {
 
 // build materialises the collection. failMode: "fetch" (obtaining the page fails) or "iterator"
 // (the page is obtained but cannot be iterated).
-func build(s *Scenario, failMode string) (first *page, firstErr error) {
+func build(s *Scenario, failMode string) (first *page, haltHook *func(), firstErr error) {
 	pages := make([]*page, len(s.Pages))
 	id := 1
 	for i, n := range s.Pages {
@@ -145,16 +159,20 @@ func build(s *Scenario, failMode string) (first *page, firstErr error) {
 		}
 	}
 	pages[len(pages)-1].open = s.Open
+	if s.HaltFetch >= 2 && s.HaltFetch <= len(pages) {
+		haltHook = new(func())
+		pages[s.HaltFetch-1].haltWhenFetched = haltHook
+	}
 	if s.FailAt >= 1 {
 		if failMode == "iterator" {
 			pages[s.FailAt-1].iterFails = true
 		} else if s.FailAt == 1 {
-			return nil, errScripted
+			return nil, nil, errScripted
 		} else {
 			pages[s.FailAt-2].failLink = true
 		}
 	}
-	return pages[0], nil
+	return pages[0], haltHook, nil
 }
 
 type generic interface {
@@ -167,13 +185,15 @@ type made struct {
 	err    error
 	isNil  bool
 	cancel context.CancelFunc
+	// set by the replay: what happens while the scripted page is being fetched
+	haltHook *func()
 }
 
 // construct builds the real paginator of the given variant over the collection.
 func construct(s *Scenario, variant, failMode string) made {
-	first, ferr := build(s, failMode)
+	first, hook, ferr := build(s, failMode)
 	ctx, cancel := context.WithCancel(context.Background())
-	m := made{cancel: cancel}
+	m := made{cancel: cancel, haltHook: hook}
 	switch variant {
 	case "static":
 		p, err := pagination.NewStaticPagePaginator(ctx,
@@ -320,6 +340,7 @@ func runScenario(id int, s *Scenario, variant, failMode string) hk.Result {
 		return res
 	}
 	var m made
+	var haltedInFetch atomic.Bool
 	stopped := false
 	dry := false
 	yielded := 0
@@ -327,6 +348,32 @@ func runScenario(id int, s *Scenario, variant, failMode string) hk.Result {
 	for i, c := range s.Calls {
 		if c.Op == "New" {
 			m = construct(s, variant, failMode)
+			if m.haltHook != nil && m.p != nil {
+				// halted from inside the fetch of page HaltFetch: Stop, Close or cancellation of the parent context in rotation,
+				// directly or from another goroutine the fetch waits for
+				how := (id + len(variant)) % 6
+				mm := m
+				*m.haltHook = func() {
+					halt := func() {
+						switch how % 3 {
+						case 0:
+							mm.p.Stop()()
+						case 1:
+							_ = mm.p.Close()
+						default:
+							mm.cancel()
+						}
+					}
+					if how >= 3 {
+						done := make(chan struct{})
+						go func() { halt(); close(done) }()
+						<-done
+					} else {
+						halt()
+					}
+					haltedInFetch.Store(true)
+				}
+			}
 			lastReach = time.Now()
 			if !c.B {
 				if m.err == nil {
@@ -353,6 +400,9 @@ func runScenario(id int, s *Scenario, variant, failMode string) hk.Result {
 		o, blocked := step(&m, c.Op)
 		if blocked {
 			return fail("call-blocked", fmt.Sprintf("%s: call %d (%s) did not return within 10s", variant, i, c.Op))
+		}
+		if haltedInFetch.Load() {
+			stopped = true // the paginator was halted while this call was fetching a page
 		}
 		switch c.Op {
 		case "Stop", "Close", "Cancel":
